@@ -288,3 +288,16 @@ Proof.
   rewrite (cycle_one_cyc s c (cycle_one s c t)). rewrite (cycle_one_cyc s c t).
   rewrite Bof_cyc, Fof_cyc. apply cyc_idem.
 Qed.
+
+(* ------------------------------------------------------------------ update_shared_directory takes effect, also for the empty list *)
+Lemma update_effect : forall s p m us d, find_listed p (listed s) = Some d ->
+  exists d', find_listed p (listed (step s (Update p m us))) = Some d' /\
+    dusers d' = (match us with Some u => u | None => dusers d end) /\
+    dmode d' = (match m with Some m' => m' | None => dmode d end) /\ ditems d' = ditems d.
+Proof.
+  intros s p m us d H. destruct (find_listed_path _ _ _ H) as [Hp _].
+  exists (set_share d (match m with Some m' => m' | None => dmode d end) (match us with Some u => u | None => dusers d end)).
+  split; [|cbn; repeat split; reflexivity].
+  unfold step. cbn [step_raw]. unfold update_raw. rewrite H. cbn [listed prune].
+  eapply find_replace; [eassumption|]. cbn. assumption.
+Qed.
